@@ -652,6 +652,24 @@ func ruleMissingPathNil(c *Ctx, rule string) {
 					}
 				}
 				walk(to)
+				if bad != nil {
+					// the step done by an expanded helper: the nil it answers travels through a join and a test
+					// before the return — decided along the paths, with what is known on them
+					ps := &pathSearch{fn: fn, fi: fi, start: to, startKnow: stepKnow(fi, b, to, knowMap{})}
+					ps.atReturn = func(r *ssa.Return, k knowMap) bool {
+						if len(r.Results) != 1 {
+							return false
+						}
+						res := r.Results[0]
+						if isNilConst(res) || res == missing || evalKnow(fi, r.Block(), nil, res, k, 0) == -1 {
+							return false
+						}
+						return true
+					}
+					if !ps.run() {
+						bad = nil
+					}
+				}
 				c.Check(bad == nil, rule, name+": missing element at "+p.Pos(missing.Pos()), p.Pos(missing.Pos()), "where a bucket of the path does not exist the lookup answers nil", func() string {
 					if bad == nil {
 						return ""
